@@ -470,6 +470,10 @@ impl PanicInfo {
     }
 }
 
+pub fn take_last_panic() -> Option<(String, String)> {
+    LAST_PANIC.lock().ok().and_then(|mut g| g.take())
+}
+
 /// Run `f`, converting a panic into Err(PanicInfo).
 pub fn guard<T>(f: impl FnOnce() -> T) -> Result<T, PanicInfo> {
     if let Ok(mut g) = LAST_PANIC.lock() {
